@@ -154,6 +154,12 @@ func c03Case(c *core.Ctx, idx int) {
 		desc := func() string {
 			return fmt.Sprintf("[%s]\n  S  %s\n  S' %s\n  value %s\n  prior %s\n  bytes %s", tc.name, typeString(tc.typ), typeString(s2), model.Show(v), model.Show(prior), hexHead(data))
 		}
+		if j == nv/2 && idx%2 == 0 {
+			// in between, somebody asks for the schemas
+			describe(tc.p, s2)
+			describe(tc.p, tc.typ)
+			rec.Count("schema_queries_between_decodes", 1)
+		}
 		got := reflect.New(s2)
 		got.Elem().Set(model.DeepCopy(prior))
 		want := reflect.New(s2)
